@@ -296,6 +296,15 @@ pub fn sig_algebra(sig: &[u8]) -> Vec<(&'static str, Vec<u8>)> {
     if let Some(s) = ed_s_plus_l(sig) {
         out.push(("ed25519-s-plus-l", s));
     }
+    if sig.len() == 64 {
+        // fixed-size signature followed by extra bytes
+        let mut t = sig.to_vec();
+        t.push(0);
+        out.push(("ed25519-trailing-byte", t));
+        let mut t = sig.to_vec();
+        t.extend_from_slice(sig);
+        out.push(("ed25519-signature-doubled", t));
+    }
     out
 }
 
